@@ -57,8 +57,9 @@ type Op struct {
 	Run     func(e *Env) error
 	// OutDirOp: op writes several files below e.OutDir.
 	OutDirOp bool
-	// NoDestOnSuccess: op legitimately leaves no e.Dest.
-	Note string
+	// OutPW: passwords that open the op's result (user, owner).
+	OutPW [2]string
+	Note  string
 }
 
 var registry = map[string]*Op{}
